@@ -6,10 +6,12 @@ fn main() {
     match args[1].as_str() {
         "c05_peerstate_closed" => c05_peerstate_closed(&mut nd),
         "c05_manager_established" => c05_manager_established(&mut nd),
+        "c15_find_node_step" => c15_find_node_step(&mut nd),
         "c15_get_record" => c15_get_record(&mut nd),
         "c15_get_providers" => c15_get_providers(&mut nd),
         "c15_find_node" => c15_find_node(&mut nd),
         "c04_identity_receive" => c04_identity_receive(&mut nd),
+        "c01_identity_binding" => c01_identity_binding(&mut nd),
         "c03_webrtc_negotiation" => c03_webrtc_negotiation(&mut nd),
         "c19_length_delimited" => c19_length_delimited(&mut nd),
         "c04_varint_receive" => c04_varint_receive(&mut nd),
